@@ -507,7 +507,7 @@ func (x *Exec) isNil(v Val) string {
 		}
 		return tFalse
 	case Mp:
-		return tFalse
+		return p.Nil
 	case Fn:
 		if p.Kind == "nil" {
 			return tTrue
@@ -852,7 +852,8 @@ func (x *Exec) assign(lhs ast.Expr, v Val, st *State) *State {
 		case Mp:
 			k := encodeKey(idx)
 			had := tSel(b.Has, k)
-			nm := Mp{tSto(b.Has, k, tTrue), vStore(b.Val, k, v), tIte(had, b.Len, tAdd(b.Len, "1")), b.K, b.V, b.KS}
+			x.c.obligeAssume("nilmap", "", st.pc, tNot(b.Nil), n.Pos(), "assignment to entry in nil map: "+x.src(n))
+			nm := Mp{tSto(b.Has, k, tTrue), vStore(b.Val, k, v), tIte(had, b.Len, tAdd(b.Len, "1")), b.K, b.V, b.KS, tFalse}
 			return x.assign(n.X, nm, st)
 		}
 		panic(unsupported("store into %T", base))
@@ -1018,6 +1019,7 @@ func (x *Exec) evalComposite(n *ast.CompositeLit, t types.Type, st *State) (Val,
 	case kMap:
 		mt := t.Underlying().(*types.Map)
 		m := c.zeroVal(t, nil).(Mp)
+		m.Nil = tFalse
 		m.Len = tInt(int64(len(n.Elts))) // Go rejects duplicate constant keys at compile time
 		for _, el := range n.Elts {
 			kv := el.(*ast.KeyValueExpr)
